@@ -1,7 +1,8 @@
 (* C11 — property theorems (statements only; proofs live in Proofs*.v).
    All statements quantify over ALL operation histories / all vectors, no bounds. *)
 From Coq Require Import ZArith List Bool Lia Sorted.
-From ADV Require Import C11.Model C11.Spec C11.ProofsMap C11.ProofsIter C11.ProofsInv C11.ProofsRef.
+From ADV Require Import C11.Model C11.Spec C11.Dense C11.ProofsMap C11.ProofsIter C11.ProofsInv C11.ProofsRef
+  C11.ProofsD1 C11.ProofsD2 C11.ProofsD3 C11.ProofsDSort C11.ProofsDSet C11.ProofsDense C11.ProofsDOut C11.ProofsShare.
 Import ListNotations.
 Open Scope Z_scope.
 
@@ -59,31 +60,84 @@ Theorem iteration_closed_form : forall h v,
              idx v' = filter (nonnull h v) (idx v) /\ Q h v v'.
 Proof. exact iterate_spec. Qed.
 
-(* 2b. refinement to the plain dense list semantics, single step, for the
-       elementary mutators.  PARTIAL: proved for Swap and At(i).Set(x) (and reads
-       and iteration above, which change no element); not proved: the
-       corresponding equations for Reset, ReverseOrder, Permute, Sort, Slice,
-       Append*, Set/SET, Map*, Reduce, the preservation of [Wf] (cells
-       allocated, no cell twice in a vector) along histories, and therefore
-       the whole-history statement abs (run ops) = dense_run ops.  Those
-       operations are covered by the correspondence run + the dense-shadow
-       oracle only. *)
-Theorem refinement_single_step_partial :
-  (forall h v i j k, Inv v -> idx_ok v i -> idx_ok v j -> 0 <= k < dim v ->
-     nth (Z.to_nat k) (abs h (swap v i j)) 0 =
-     if k =? i then nth (Z.to_nat j) (abs h v) 0 else if k =? j then nth (Z.to_nat i) (abs h v) 0
-     else nth (Z.to_nat k) (abs h v) 0) /\
-  (forall h v i x h' v' l k, Inv v -> Wf h v -> at_ h v i = Some (h', v', l) -> 0 <= k < dim v ->
-     nth (Z.to_nat k) (abs (hset h' l x) v') 0 = if k =? i then x else nth (Z.to_nat k) (abs h v) 0) /\
-  (forall h v i, idx_ok v i -> exists h' v' l, at_ h v i = Some (h', v', l)).
-Proof. exact (conj swap_refines (conj set_at_refines at_in_range_ok)). Qed.
+(* 2b. REFINEMENT to the plain dense model (Dense.v: value lists, copy semantics), every one of
+       the 25 operations of the model: New, At (creates), At(i).Set(x), ConstAt, Set (sparse or
+       dense operand, through the joint iterator state machine), SET, Reset, ReverseOrder, Swap,
+       Permute, Sort, Slice, AppendVector (sparse: shares the argument's scalars / dense),
+       AppendScalar, Map, MapSet, Reduce, ConstIterator (full / abandoned / from i) with skip(),
+       Clone, JointIterator, JOINT3_ITERATOR.
+       [WWf]: every stored scalar is allocated and no scalar is stored twice in one vector —
+       holds initially and is kept by every operation (second conjunct).
+       [safe]: an operation that WRITES scalars in place (At(i).Set, Set, SET, Reset, Map, MapSet)
+       works on a vector none of whose scalars is held by another vector.  Without it no plain
+       dense semantics applies (known finding C11-SLICEWT; SpecTest.ex_unsafe_differs,
+       slice_write_through_refuted); operations that move, share or read scalars are unrestricted. *)
+Theorem wf_initial : WWf init.
+Proof. exact WWf_init. Qed.
+Theorem refinement_step : forall w o,
+  WInv w -> WWf w -> in_range w o -> safe w o ->
+  absw (fst (step w o)) = dstep (absw w) o /\ WWf (fst (step w o)).
+Proof. exact (step_sim set_vec_refines set_vec_total). Qed.
+(* ... hence for EVERY valid, safe history: the world reads exactly like the dense run *)
+Theorem refinement_all_histories : forall ops,
+  valid_safe init ops -> absw (run init ops) = dense_run [] ops /\ WWf (run init ops).
+Proof. intros ops V. exact (run_sim set_vec_refines set_vec_total ops init WInv_init WWf_init V). Qed.
+(* the values the reading operations return are the dense ones: At / ConstAt = the element, Reduce(+) =
+   the sum over ALL positions, ConstIterator = exactly the (position, value) pairs with value <> 0,
+   ascending; ConstIteratorFrom(i) = those at positions >= i — and the outcome is never a panic.
+   Not given a dense reading here ([dout] = None): the visit sequence of the abandoned loop IterPart (see
+   PropsIt.held_iterator_remaining for partially consumed iterators) and of JointIterator / JOINT3_ITERATOR
+   (their effect on the world IS covered by refinement_step: none) *)
+Theorem reads_agree_step : forall w o q,
+  WInv w -> WWf w -> in_range w o -> dout (absw w) o = Some q -> snd (step w o) = (K_OK, q).
+Proof. exact step_out. Qed.
+(* Permute with ANY argument, including its error exits (wrong length: nothing happens; an entry
+   outside [0,n): the interchanges done before it stay — Dense.dpermute), and Sort in closed form *)
+Theorem permute_any_argument : forall h v pi, Inv v -> abs h (fst (permute v pi)) = dpermute (abs h v) pi.
+Proof. exact permute_abs. Qed.
+Theorem sort_is_dense_sort : forall h v r, Inv v ->
+  exists v', sort h v r = Some v' /\ abs h v' = dsort r (abs h v) /\ dim v' = dim v.
+Proof.
+  intros h v r I. destruct (sort_total h v r I) as [v' E]. exists v'. split; auto. eapply sort_refines; eauto.
+Qed.
+(* Set / SET on their own: the receiver reads like the operand, nothing else changes, the loop
+   neither panics nor runs out of fuel *)
+Theorem set_copies_operand : forall w t o,
+  WInv w -> WWf w -> has w t -> operand_ok w (dim (getv w t)) o -> unshared w t ->
+  exists w', set_vec w t o = Some (w', true) /\ absw w' = upd t (doperand (absw w) o) (absw w).
+Proof.
+  intros w t o I W Ht Ho U. destruct (set_vec_total w t o I Ht Ho) as (w' & b & E).
+  destruct (set_vec_refines w t o w' b I W Ht Ho U E) as (-> & A & _). eauto.
+Qed.
+(* what still holds for an UNSAFE write At(i).Set(x) (scalar shared with another vector): the
+   receiver itself reads as the dense update.  PARTIAL: nothing is claimed about the vectors that
+   share scalars with the receiver — C11-SLICEWT is exactly that no dense semantics fits them. *)
+Theorem set_at_receiver_partial : forall h v i x h' v' l,
+  Inv v -> Wf h v -> at_ h v i = Some (h', v', l) -> 0 <= i ->
+  abs (hset h' l x) v' = upd (Z.to_nat i) x (abs h v).
+Proof. exact set_at_abs. Qed.
 
-(* 4. "n changes only by Append".  PARTIAL: proved for the vector an iteration,
-      a Swap or an At works on (dim_swap, dim_at, iteration_exact) and, through
-      [Q], for skip(); the statement for every operation of [step] on every
-      vector of the world is not proved (checked per step by the
-      correspondence run and the oracle). *)
-Theorem dims_partial :
-  (forall v i j, dim (swap v i j) = dim v) /\
-  (forall h v i h' v' l, at_ h v i = Some (h', v', l) -> dim v' = dim v).
-Proof. exact (conj dim_swap dim_at). Qed.
+(* 4. "the length changes only through Append": NO operation — in range or not — changes the
+      dimension of an existing vector or removes a vector; Append*, like New / Slice / Clone, returns
+      a NEW vector (whose dimension is the dense one by 2b: dim = length of its dense list) *)
+Theorem dims_every_operation : forall w o,
+  let w' := fst (step w o) in
+  (forall u, (u < length (vecs w))%nat -> dim (getv w' u) = dim (getv w u)) /\
+  (length (vecs w') = length (vecs w) \/ (creates o = true /\ length (vecs w') = S (length (vecs w)))).
+Proof. exact step_dims. Qed.
+Theorem dims_every_history : forall ops w u, (u < length (vecs w))%nat ->
+  dim (getv (run w ops) u) = dim (getv w u) /\ (length (vecs w) <= length (vecs (run w ops)))%nat.
+Proof. intros ops w u. exact (run_dims ops w u). Qed.
+
+(* 2c. where sharing comes from: ONLY Slice and AppendVector(sparse) make two vectors hold the same
+       scalar (every other operation keeps the scalars of a vector or gives exactly one vector fresh
+       ones).  So for every valid history that does not use these two operations the side condition
+       [safe] holds by itself: the world reads exactly like the dense run — no hypothesis besides
+       in-range arguments — stays well-formed, and no two vectors ever share a scalar. *)
+Theorem refinement_histories_without_sharing : forall ops,
+  valid init ops -> Forall no_share ops ->
+  absw (run init ops) = dense_run [] ops /\ WWf (run init ops) /\ Sep (run init ops).
+Proof. exact run_noshare. Qed.
+Theorem sharing_only_by_slice_and_append : forall w o,
+  WInv w -> WWf w -> in_range w o -> no_share o -> Sep w -> Sep (fst (step w o)).
+Proof. exact step_Sep. Qed.
